@@ -112,9 +112,9 @@ type enumResp struct {
 }
 
 type enumReq struct {
-	After    *string // nil: parameter absent
-	Limit    string  // "": absent
-	MaxWait  string  // "": absent
+	After   *string // nil: parameter absent
+	Limit   string  // "": absent
+	MaxWait string  // "": absent
 }
 
 func (q enumReq) String() string {
